@@ -8,11 +8,12 @@
    Models: Model/Lexer.v (every Go index / slice expression is an explicit [OPanic]),
    Model/DatagramLines.v (the line loop and the three counters of handleDatagram),
    Model/WireStatus.v (readBody / MetricHandler / EventHandler as a trace of actions),
-   Model/LexerLegacy.v (the event-body test before the repair of defect D1).
+   Model/LexerLegacy.v (the event-body test before the repair of defect D1),
+   Model/Receiver.v (DatagramReceiver.Receive as an LTS over ReadBatch returns and DoneFunc calls).
    [pf] is strconv.ParseFloat, an arbitrary function; [wire_oracle] is what the body reader, the
    decompressors and proto.Unmarshal do with the request at hand, arbitrary as well. *)
 From GS Require Import Base.Bytes Model.Lexer Model.LexerLegacy Model.DatagramLines Model.WireStatus
-  Proofs.LexerSafety Proofs.DatagramLines Proofs.WireStatus.
+  Model.Receiver Proofs.LexerSafety Proofs.DatagramLines Proofs.WireStatus Proofs.Receiver.
 Local Open Scope N_scope.
 
 (* No byte string — NUL bytes included, declared event lengths anywhere in [0, 2^64) and
@@ -54,6 +55,66 @@ Theorem C03_later_datagrams_processed :
     parse_stream pf ns msgs 0 0 0 = DCounts m e b /\ m + e + b = total_lines msgs.
 Proof. exact parse_stream_total0. Qed.
 Print Assumptions C03_later_datagrams_processed.
+
+(* ---- the socket-facing loop, DatagramReceiver.Receive (Model/Receiver.v) ----
+   [ls] is any sequence of ReadBatch returns (error, or up to batch-size datagrams of 0..65535
+   bytes each with the address they came from) interleaved with DoneFunc calls of the parser;
+   [receive c B ls = Some st] says that [ls] is a run (every DoneFunc belongs to a datagram
+   that is still pending).  [current u] is the code as it is, [u] = the socket is a unix socket. *)
+
+(* The receiver never panics, and no nil slot ever reaches the parser: every batch it hands
+   over can be dereferenced slot by slot (zero-length datagrams and read errors included). *)
+Theorem C03_receiver_never_panics :
+  forall (u : bool) (B : nat) (ls : list label) (st : status),
+    Forall (wf_label B) ls ->
+    receive (current u) B ls = Some st ->
+    exists s, st = Running s /\ forall bt, In bt (r_handed s) -> exists ds, deref bt = Some ds.
+Proof. exact receiver_never_panics. Qed.
+Print Assumptions C03_receiver_never_panics.
+
+(* The batches handed to the parser are exactly the successful reads, one batch per read, in
+   order, zero-length datagrams included; each datagram carries the bytes read, the sender's
+   IP (getIP of its address; the unknown source on a unix socket) and the time of its read. *)
+Theorem C03_receiver_conserves :
+  forall (u : bool) (B : nat) (ls : list label) (st : status),
+    Forall (wf_label B) ls ->
+    receive (current u) B ls = Some st ->
+    exists s dss,
+      st = Running s
+      /\ r_handed s = map (map Some) dss
+      /\ map (map seen) dss = expected (current u) ls.
+Proof. exact receiver_safe_and_conserving. Qed.
+Print Assumptions C03_receiver_conserves.
+
+(* Receiver and parser composed are total: for every script of ReadBatch results the process
+   survives and the counters account for every line of every datagram that was read. *)
+Theorem C03_receiver_parser_total :
+  forall (pf : str -> pfres) (ns : str) (u : bool) (B : nat) (script : list read_result),
+    Forall (wf_read B) script ->
+    exists m e b,
+      ingest pf ns (current u) B script = DCounts m e b
+      /\ m + e + b = total_lines (flat_map read_data script).
+Proof. exact ingest_total. Qed.
+Print Assumptions C03_receiver_parser_total.
+
+(* No receive buffer is ever in two places: not in two slots, not in a slot while a datagram
+   whose DoneFunc has not run still references it, not in the pool while referenced. *)
+Theorem C03_receiver_buffers_disjoint :
+  forall (c : config) (B : nat) (ls : list label) (s : rstate),
+    receive c B ls = Some (Running s) ->
+    NoDup (r_slots s ++ r_outst s ++ p_free (r_pool s)).
+Proof. exact receiver_buffers_disjoint. Qed.
+Print Assumptions C03_receiver_buffers_disjoint.
+
+(* The seeded variant (`if nbytes == 0 { continue }` with the pre-sized batch slice) is refuted:
+   one zero-length datagram leaves a nil slot and the parser's dereference panics, while the
+   code as it is counts zero lines. *)
+Theorem C03_receiver_legacy_refuted :
+  exists script, Forall (wf_read 1) script
+    /\ forall pf ns u, ingest pf ns (seeded u) 1 script = DPanic
+                       /\ ingest pf ns (current u) 1 script = DCounts 0 0 0.
+Proof. exact seeded_refuted. Qed.
+Print Assumptions C03_receiver_legacy_refuted.
 
 (* The pre-fix lexer (length test in uint32, /repo before commit 409dd76) is refuted: there is
    a line — `_e{5,4294967290}:abcde|xyz` — on which it panics, both in the frozen model's
